@@ -180,6 +180,7 @@ type Sim struct {
 	runnable  []*Task
 	lockWait  map[any][]*Task
 	onceState map[*sync.Once]int
+	pools     map[*sync.Pool][]any
 	running   *Task
 	last      *Task
 	wake      chan struct{}
@@ -650,6 +651,43 @@ func RWRUnlock(site string, mu *sync.RWMutex) {
 	if s := S; s != nil {
 		s.unlocked(mu)
 	}
+}
+
+// PoolGet / PoolPut: sync.Pool is a source of nondeterminism of its own (per-P caches, emptied by
+// the garbage collector). Under the simulator a pool is a per-run LIFO list owned by the run, so
+// that what Get returns is a function of the schedule alone; outside it the real pool is used.
+func PoolGet(site string, p *sync.Pool) any {
+	s := S
+	if s == nil {
+		return p.Get()
+	}
+	s.mu.Lock()
+	l := s.pools[p]
+	if n := len(l); n > 0 {
+		v := l[n-1]
+		s.pools[p] = l[:n-1]
+		s.mu.Unlock()
+		return v
+	}
+	s.mu.Unlock()
+	if p.New != nil {
+		return p.New()
+	}
+	return nil
+}
+
+func PoolPut(site string, p *sync.Pool, v any) {
+	s := S
+	if s == nil {
+		p.Put(v)
+		return
+	}
+	s.mu.Lock()
+	if s.pools == nil {
+		s.pools = map[*sync.Pool][]any{}
+	}
+	s.pools[p] = append(s.pools[p], v)
+	s.mu.Unlock()
 }
 
 func OnceDo(site string, o *sync.Once, f func()) {
